@@ -18,7 +18,10 @@ RULE = (
     "A: a case = (ordered list of distinct parser-shaped names, list of dotted queries); non-trivial when some "
     "query hits a name at a non-initial position or hits >=2 names, and >=3 names are stored. "
     "B: a case = rule sequence of a state machine over EdgeRegister / bridged TestNode registers; non-trivial "
-    "when >=2 bridged nodes exist and >=2 visits were registered. Distinct = distinct canonical JSON of the case."
+    "when >=2 bridged nodes exist and >=2 visits were registered. "
+    "C: simulated multi-worker traversals (E1) of real, partly lazily parsed graphs with clones; every visit "
+    "registered during the run must be reported with its exact count through the registers of every equivalent "
+    "node; non-trivial with >=2 workers. Distinct = distinct canonical JSON of the case."
 )
 ASSUMPTIONS = [
     "names have the shape the Cartesian parser produces: the first variant comes from a set alphabet that never "
@@ -346,6 +349,39 @@ def run(ctx):
         body(case)
     ctx.hyp(name_sets(), body, ctx.budget(4000, 400000), name="lookup")
     ctx.machine(make_machine(impl, ctx), ctx.budget(1000, 100000), steps=40, name="register")
+    run_graph_part(ctx)
+
+
+def graph_scenarios():
+    from vlib import sim as simmod
+
+    return {
+        "get/w2/lazy": simmod.Scenario("leaves&tutorial_get", nets="net1 net2", lazy=True),
+        "t2+get-implicit/w2/lazy": simmod.Scenario("leaves&tutorial2,tutorial_get..implicit_both", nets="net1 net2", lazy=True),
+        "finale+t1/w3/lazy": simmod.Scenario("leaves&tutorial_finale,tutorial1", nets="net1 net2 net3", lazy=True),
+        "gui/w2/lazy": simmod.Scenario("leaves&tutorial_gui", nets="net1 net2", lazy=True),
+        "t2gui/cc/lazy": simmod.Scenario("leaves&tutorial2,tutorial_gui", nets="cluster1.net6 cluster2.net6", lazy=True),
+        "t3/w3": simmod.Scenario("normal&tutorial3", nets="net1 net2 net3", lazy=False),
+    }
+
+
+def run_graph_part(ctx):
+    """Part C: the registers of the real graph during real (simulated) traversals, incl. lazily parsed clones."""
+    from vlib import e1, sim as simmod
+
+    simmod.setup()
+    names = sorted(graph_scenarios())
+    mine = {names[ctx.shard % len(names)]: graph_scenarios()[names[ctx.shard % len(names)]]}
+
+    def body(case):
+        sim = e1.run_case(case, ctx.scratch)
+        nontrivial = len(sim.workers) >= 2 and len(sim.registrations) >= 2
+        ctx.case(case, nontrivial, ["C:graph-registers", "C:" + case["scenario_name"]],
+                 sample={"case": case, "registrations": len(sim.registrations)})
+        e1.oracle_registers(sim, case)
+
+    ctx.hyp(e1.cases(mine, {"dry_run": False, "pool_filter": False, "scopes": False}), body,
+            ctx.budget(48, 3200), name="graph-registers", shrink=False)
 
 
 REGRESSIONS = [
@@ -355,6 +391,16 @@ REGRESSIONS = [
 
 
 def replay(ctx, case):
+    if "scenario" in case:
+        from vlib import e1, sim as simmod
+
+        simmod.setup()
+        sim = e1.run_case(case, ctx.scratch)
+        try:
+            e1.oracle_registers(sim, case)
+        except Violation as violation:
+            return [violation]
+        return []
     impl = load()
     if "steps" in case:
         machine_cls = make_machine(impl, ctx)
